@@ -54,7 +54,8 @@ func (s *ConfigEntryLinkIndex) FromObject(obj interface{}) (bool, [][]byte, erro
 
 	vals := make([][]byte, 0, numLinks)
 	for _, linkedService := range linkedServices {
-		vals = append(vals, []byte(linkedService.String()+"\x00"))
+		// lower-cased like the id index: an entry named "Web" is the entry of service "web"
+		vals = append(vals, []byte(strings.ToLower(linkedService.String())+"\x00"))
 	}
 
 	return true, vals, nil
@@ -69,7 +70,7 @@ func (s *ConfigEntryLinkIndex) FromArgs(args ...interface{}) ([]byte, error) {
 		return nil, fmt.Errorf("argument must be a structs.ServiceID: %#v", args[0])
 	}
 	// Add the null character as a terminator
-	return []byte(arg.String() + "\x00"), nil
+	return []byte(strings.ToLower(arg.String()) + "\x00"), nil
 }
 
 func (s *ConfigEntryLinkIndex) PrefixFromArgs(args ...interface{}) ([]byte, error) {
@@ -1221,6 +1222,20 @@ func validateProposedConfigEntryInServiceGraph(
 
 		sid := structs.NewServiceID(kindName.Name, &kindName.EnterpriseMeta)
 		checkChains[sid] = struct{}{}
+
+		// The table keys entries by their lower-cased name, so this entry is
+		// also part of the chain of the other spellings of its name: the
+		// lower-cased one and those of the stored entries it shares a key with.
+		checkChains[structs.NewServiceID(strings.ToLower(kindName.Name), &kindName.EnterpriseMeta)] = struct{}{}
+		for _, kind := range append([]string{structs.ServiceDefaults}, serviceGraphKinds...) {
+			_, other, err := configEntryTxn(tx, nil, kind, kindName.Name, &kindName.EnterpriseMeta)
+			if err != nil {
+				return err
+			}
+			if other != nil {
+				checkChains[structs.NewServiceID(other.GetName(), other.GetEnterpriseMeta())] = struct{}{}
+			}
+		}
 
 		// A chain is affected when it refers to this service directly or
 		// through other chains (web redirects to api, api fails over to a
